@@ -62,6 +62,18 @@ Theorem C19_recheck_needed :
 Proof. exact recheck_needed. Qed.
 Print Assumptions C19_recheck_needed.
 
+(* Structural counterpart of per-request isolation in the model: every lookup works on its own
+   `params` dict.  The dict a thread holds was allocated by that thread's own find() call (its
+   identity is below the allocator), and no two threads ever hold the same dict — for every
+   schedule, with or without the lock / the re-check.  (That the REAL framework hands out fresh
+   objects everywhere is not a theorem; it is observed by the marking apps of harness/c19.py.) *)
+Theorem C19_params_fresh : forall cinst cmulti roots paths use_lock recheck sched,
+  let st := run_sched cinst cmulti roots paths use_lock recheck sched in
+  (forall i a, s_dict st i = Some a -> a < s_next st) /\
+  (forall i j a, s_dict st i = Some a -> s_dict st j = Some a -> i = j).
+Proof. exact params_fresh. Qed.
+Print Assumptions C19_params_fresh.
+
 (* Memo caches (lru_cache'd pure functions, the media resolver cache, the ASGI header-name
    cache): for any history of calls and any eviction / ceiling policy that never invents
    entries, every cached call returns f. *)
